@@ -244,6 +244,10 @@ func runC13(p *eng.Prog, r *eng.Report, tier string) {
 		return strings.HasPrefix(f.Short, "stanza.") || strings.HasPrefix(f.Short, "stream.") || strings.HasPrefix(f.Short, "internal/saslerr.")
 	})
 	r.Note("C13.9: %d start-element edges in token loops examined", nl)
+	nv := decoderLoopVisitsEveryChild(c, "C13.20", func(f *eng.Fn) bool {
+		return strings.HasPrefix(f.Short, "stanza.") || strings.HasPrefix(f.Short, "stream.") || strings.HasPrefix(f.Short, "internal/saslerr.")
+	})
+	c.r.Floor("C13.20", "start-element edges in the token loops of the core decoders", nv, 1)
 	// C13.8 decoder typestate in the core stanza / stream error decoders
 	decoderSkipTypestate(c, "C13.8", func(f *eng.Fn) bool {
 		return strings.HasPrefix(f.Short, "stanza.") || strings.HasPrefix(f.Short, "stream.") || strings.HasPrefix(f.Short, "internal/saslerr.")
